@@ -23,12 +23,28 @@ type MultiPassReader struct {
 	rs          io.ReadSeeker
 	passesCount int
 	passesLimit int
+	passBytes   int64       // bytes read in the current pass
+	progress    func() bool // see SetProgress
+}
+
+// SetProgress sets a function that is asked at the end of every pass whether the consumer got anything
+// out of the data read since the previous call. A pass that gave nothing - an empty source is always one,
+// a source with nothing but white space is one for a decoder - would give nothing again, so the reader
+// reports io.EOF instead of starting over for ever.
+func (r *MultiPassReader) SetProgress(progress func() bool) {
+	r.progress = progress
 }
 
 func (r *MultiPassReader) Read(p []byte) (n int, err error) {
 	n, err = r.rs.Read(p)
+	r.passBytes += int64(n)
 	if err == io.EOF {
 		r.passesCount++
+		fruitless := r.passBytes == 0 || r.progress != nil && !r.progress()
+		r.passBytes = 0
+		if fruitless {
+			return
+		}
 		if r.passesLimit <= 0 || r.passesCount < r.passesLimit {
 			_, err = r.rs.Seek(0, io.SeekStart)
 		}
